@@ -501,3 +501,13 @@ def flag_values(events, var, domain, since=0):
         if sat is not None:
             ok &= sat if e.val else (set(domain) - sat)
     return ok
+
+
+def call_arg(call, pos, name):
+    """the argument of a call that binds parameter `name` (position `pos`, 0-based, not counting self), given by position or by keyword"""
+    for k in call.keywords:
+        if k.arg == name:
+            return k.value
+    if pos is not None and len(call.args) > pos and not any(isinstance(a, ast.Starred) for a in call.args[:pos + 1]):
+        return call.args[pos]
+    return None
